@@ -24,7 +24,12 @@
       same next identifier);
     - an example by evaluation: [f <= g] raises on a bounded table, the
       temporary [~ f] is released (handle table and counters as before), and
-      the comparison succeeds once the limit is lifted.
+      the comparison succeeds once the limit is lifted;
+    - an example by evaluation with dynamic reordering ENABLED
+      ([C08f_or_full_table_dynamic]): [y | x] raises [RuntimeError] on a full
+      table, both when no reordering request fires and when one fires (the
+      sifting is then stopped by the full table); no [Function] is created,
+      handle table and counters are as before, reordering stays enabled.
 
     Only statements closed by [exact]; proofs live in [Proofs/AutorefFull.v]. *)
 From DD Require Import AutorefFull.
@@ -180,3 +185,68 @@ Example C08f_le_full_table :
                    length (filter (fun p => absn (p.2) = n) (map_to_list (handles a3)))))
     (map_to_list (refc (mgr a3))) = true.
 Proof. by vm_compute. Qed.
+
+(** ** Example (by evaluation) with dynamic reordering ENABLED, for
+    [C08f_call_full_dynamic]
+
+    manager 0 as above ([x]: handle 0, node 2; [y]: handle 1, node 3), then
+    [bdd.configure(reordering=True)] and [bdd._bdd.max_nodes = 4] ([ffwD0]);
+    [ffwD]: the same with the forced trigger of the harness, so that the first
+    reordering request of the next call fires. *)
+Theorem C08f_dynamic_worlds :
+  ffwS = arun aworld_empty 0 [ANew [(0, 0); (1, 1)]; AVar 0; AVar 1] ∧
+  ffwD0 = arun ffwS 0 [AConfigure (Some true); ASetMaxNodes (Some 4%positive)] ∧
+  ffwD = arun ffwS 0 [AConfigure (Some true); ASetMaxNodes (Some 4%positive);
+                      ASetTrig (Some 1)].
+Proof. exact (conj eq_refl (conj eq_refl eq_refl)). Qed.
+Print Assumptions C08f_dynamic_worlds.
+
+(** the hypotheses of [C08f_call_full_dynamic] hold of both states and the
+    call [y | x] *)
+Example C08f_dynamic_example_hypotheses_hold :
+  (AInvDT (aworld_get ffwD0 0) ∧ AInvDT (aworld_get ffwD 0)) ∧
+  a_allowedD (AApply "or" 1 (Some 0) None) = true ∧
+  (∃ a', run_aop aworld_empty (AApply "or" 1 (Some 0) None) (aworld_get ffwD0 0)
+         = (Err ERuntime, a')) ∧
+  (∃ a', run_aop aworld_empty (AApply "or" 1 (Some 0) None) (aworld_get ffwD 0)
+         = (Err ERuntime, a')).
+Proof. exact full_dynamic_hypotheses. Qed.
+Print Assumptions C08f_dynamic_example_hypotheses_hold.
+
+Example C08f_or_full_table_dynamic :
+  let o := AApply "or" 1 (Some 0) None in
+  let a0 := aworld_get ffwD0 0 in let a1 := aworld_get (fst (astep ffwD0 0 o)) 0 in
+  let b0 := aworld_get ffwD 0 in let b1 := aworld_get (fst (astep ffwD 0 o)) 0 in
+  (* reordering is enabled, the table is full *)
+  last_len (mgr a0) = Some 100 ∧ max_nodes (mgr a0) = Some 4%positive ∧
+  map_to_list (handles a0) = [(0, 2%Z); (1, 3%Z)] ∧ next_hid a0 = 2 ∧
+  map_to_list (refc (mgr a0)) = [(1%positive, 5); (2%positive, 1); (3%positive, 1)] ∧
+  (* [y | x] without a request: RuntimeError; no [Function] was created, the
+     handle table, the counters, the nodes and the order are as before,
+     reordering is still enabled, the context flag is off *)
+  snd (astep ffwD0 0 o) = Err ERuntime ∧
+  map_to_list (handles a1) = map_to_list (handles a0) ∧ next_hid a1 = next_hid a0 ∧
+  map_to_list (refc (mgr a1)) = map_to_list (refc (mgr a0)) ∧
+  map_to_list (succ (mgr a1)) = map_to_list (succ (mgr a0)) ∧
+  map_to_list (vars (mgr a1)) = map_to_list (vars (mgr a0)) ∧
+  last_len (mgr a1) = Some 100 ∧ rctx (mgr a1) = false ∧
+  max_nodes (mgr a1) = Some 4%positive ∧
+  (* the same call when the reordering request FIRES (the trigger is consumed):
+     the sifting that serves it is stopped by the full-table pre-check of
+     [swap]; the caller sees RuntimeError (not the internal signal), the
+     threshold is put back, and again nothing else changed *)
+  trig (mgr b0) = Some 1 ∧ adigest (b0 <| mgr := (mgr b0) <| trig := None |> |>) = adigest a0 ∧
+  snd (astep ffwD 0 o) = Err ERuntime ∧ trig (mgr b1) = None ∧
+  map_to_list (handles b1) = map_to_list (handles a0) ∧ next_hid b1 = next_hid a0 ∧
+  map_to_list (refc (mgr b1)) = map_to_list (refc (mgr a0)) ∧
+  map_to_list (succ (mgr b1)) = map_to_list (succ (mgr a0)) ∧
+  map_to_list (vars (mgr b1)) = map_to_list (vars (mgr a0)) ∧
+  last_len (mgr b1) = Some 100 ∧ rctx (mgr b1) = false ∧
+  max_nodes (mgr b1) = Some 4%positive ∧
+  (* the counters are exact for the ledger of the live handles *)
+  forallb (fun '(n, c) =>
+      bool_decide (c = indeg (succ (mgr b1)) n + (if decide (n = 1%positive) then 1 else 0) +
+                   length (filter (fun p => absn (p.2) = n) (map_to_list (handles b1)))))
+    (map_to_list (refc (mgr b1))) = true.
+Proof. by vm_compute. Qed.
+Print Assumptions C08f_or_full_table_dynamic.
